@@ -66,7 +66,7 @@ theorem extends_layoutProp (w : World) (cv : ClassV) : Extends w.heap (layoutPro
   extends_foldl _ extends_allocProp cv.dict (w.heap, [])
 
 theorem extends_layout (w : World) (cv : ClassV) : Extends w.heap (layout w cv).heap := by
-  show Extends w.heap (layoutAcc w cv (layoutDecl w cv)).1
+  show Extends w.heap (layoutAcc (w.restrictTo cv.decl.mro) cv (layoutDecl w cv)).1
   exact ((extends_layoutProp w cv).trans (extends_foldl _ (extends_allocDecl _) cv.dict ((layoutProp w cv).1, []))).trans
     (extends_foldl _ (extends_allocAcc _ _ _) cv.dict ((layoutDecl w cv).1, []))
 
@@ -707,6 +707,49 @@ theorem preserve_addEnum (T : Tables) (w : World) (i p m : Name) (hb : Bounded w
     all_goals simp [enumHeap]
 
 
+/-! ### the classes along the MRO -/
+
+theorem findClass_restrictTo (w : World) (mro : List Name) (c : Name) :
+    (w.restrictTo mro).findClass c = if mro.contains c then w.findClass c else none := by
+  unfold World.findClass World.restrictTo
+  simp only
+  generalize w.classes = l
+  induction l with
+  | nil => simp
+  | cons a l ih =>
+    rw [List.filter_cons]
+    cases hm : mro.contains a.pure.decl.name with
+    | true =>
+      simp only [if_true, List.find?_cons]
+      cases hb : (a.pure.decl.name == c) with
+      | true =>
+        have ha : a.pure.decl.name = c := by simpa using hb
+        rw [ha] at hm
+        simp only [hm, if_true]
+      | false => simp only [ih]
+    | false =>
+      simp only [Bool.false_eq_true, if_false, List.find?_cons]
+      cases hb : (a.pure.decl.name == c) with
+      | true =>
+        have ha : a.pure.decl.name = c := by simpa using hb
+        rw [ha] at hm
+        simp only [ih, hm, Bool.false_eq_true, if_false]
+      | false => simp only [ih]
+
+theorem findClass_of_restrictTo {w : World} {mro : List Name} {c : Name} {cr : ClassRec}
+    (h : (w.restrictTo mro).findClass c = some cr) : w.findClass c = some cr := by
+  rw [findClass_restrictTo] at h
+  split at h
+  · exact h
+  · cases h
+
+theorem roots_of_restrictTo {w : World} {mro : List Name} {c : Name} {x : Ref}
+    (h : x ∈ (w.restrictTo mro).roots (.cls c)) : x ∈ w.roots (.cls c) := by
+  simp only [World.roots] at h ⊢
+  cases hc : (w.restrictTo mro).findClass c with
+  | none => simp [hc] at h
+  | some cr => rw [findClass_of_restrictTo hc]; simpa [hc] using h
+
 /-! ### class definition keeps the invariants -/
 
 /-- reachable from an existing class -/
@@ -985,18 +1028,25 @@ theorem preserve_define (T : Tables) (w : World) (d : ClassDecl) (hadm : w.findC
     freshOrInv_foldl _ _ _ (freshOrInv_allocDecl _ _ _) cv.dict ((layoutProp w cv).1, []) ⟨s0inv.1, by simp⟩
   have hsd : ∀ nr ∈ (layoutDecl w cv).2, w.heap.length ≤ nr.2 ∧ nr.2 < (layoutDecl w cv).1.length :=
     fun nr h => (s1inv.2 nr h).1
-  have s2inv : FreshOrInv w.heap.length (ClassReach w) (layoutAcc w cv (layoutDecl w cv)) :=
-    freshOrInv_layoutAcc w cv.decl.name _ _ _ hsd cv.dict ((layoutDecl w cv).1, [])
+  have hreach : ∀ x, ClassReach (w.restrictTo cv.decl.mro) x → ClassReach w x := by
+    rintro x ⟨c, hc⟩
+    obtain ⟨root, hroot, hx⟩ := List.mem_flatMap.1 hc
+    exact ⟨c, List.mem_flatMap.2 ⟨root, roots_of_restrictTo hroot, hx⟩⟩
+  have s2inv : FreshOrInv w.heap.length (ClassReach (w.restrictTo cv.decl.mro))
+      (layoutAcc (w.restrictTo cv.decl.mro) cv (layoutDecl w cv)) :=
+    freshOrInv_layoutAcc (w.restrictTo cv.decl.mro) cv.decl.name _ _ _ hsd cv.dict ((layoutDecl w cv).1, [])
       ⟨⟨s1inv.1, by simp⟩, Nat.le_refl _⟩
-  have he12 : Extends (layoutDecl w cv).1 (layoutAcc w cv (layoutDecl w cv)).1 :=
+  have he12 : Extends (layoutDecl w cv).1 (layoutAcc (w.restrictTo cv.decl.mro) cv (layoutDecl w cv)).1 :=
     extends_foldl _ (extends_allocAcc _ _ _) cv.dict ((layoutDecl w cv).1, [])
-  have hheap : (layout w cv).heap = (layoutAcc w cv (layoutDecl w cv)).1 := rfl
+  have hheap : (layout w cv).heap = (layoutAcc (w.restrictTo cv.decl.mro) cv (layoutDecl w cv)).1 := rfl
   -- objects of the new class: from pass 2
-  have own2 : ∀ nr ∈ (layoutAcc w cv (layoutDecl w cv)).2, ∀ x ∈ reachAcc (layout w cv).heap nr.2,
+  have own2 : ∀ nr ∈ (layoutAcc (w.restrictTo cv.decl.mro) cv (layoutDecl w cv)).2, ∀ x ∈ reachAcc (layout w cv).heap nr.2,
       (w.heap.length ≤ x ∧ x < (layout w cv).heap.length) ∨ ClassReach w x := by
     intro nr hnr x hx
     rw [hheap] at hx ⊢
-    exact (s2inv.2 nr hnr).2 x hx
+    rcases (s2inv.2 nr hnr).2 x hx with h | h
+    · exact Or.inl h
+    · exact Or.inr (hreach x h)
   unfold reach at hr
   simp only [World.roots, hfind] at hr
   obtain ⟨root, hroot, hx⟩ := List.mem_flatMap.1 hr
@@ -1027,11 +1077,13 @@ theorem preserve_define (T : Tables) (w : World) (d : ClassDecl) (hadm : w.findC
         rw [reachAcc_congr ((extends_layout w cv).get (root_lt hb hc))] at hx
         exact ⟨c, root_reach hc hx⟩
     · -- an accessible
-      have hcases : nr ∈ (layoutAcc w cv (layoutDecl w cv)).2 ∨ ∃ c, nr.2 ∈ w.roots (.cls c) := by
+      have hcases : nr ∈ (layoutAcc (w.restrictTo cv.decl.mro) cv (layoutDecl w cv)).2 ∨ ∃ c, nr.2 ∈ w.roots (.cls c) := by
         simp only [layoutRec, layoutAccessibles] at hnr
         split at hnr
         · obtain ⟨ns, _, hns⟩ := List.mem_filterMap.1 hnr
-          exact accessibleRef_ok hns
+          rcases accessibleRef_ok hns with h | ⟨c, hc⟩
+          · exact Or.inl h
+          · exact Or.inr ⟨c, roots_of_restrictTo hc⟩
         · exact Or.inl (dictAccs_mem hnr)
       rcases hcases with h | ⟨c, hc⟩
       · exact own2 nr h r hx
